@@ -5,6 +5,7 @@
 -/
 import PG.Model.Sha1
 import PG.Lemmas.Sha1L
+import PG.Generated.Uuid
 namespace PG
 
 /-- the identifier is the version-5 UUID of exactly the given bytes in the namespace that is
@@ -52,5 +53,15 @@ theorem C18_empty :
     mappingUuid [] =
       [0x0e, 0x71, 0xd7, 0x6c, 0x50, 0x67, 0x5a, 0x02, 0xa5, 0xd9, 0x7e, 0x81, 0x07, 0x0e, 0xb1, 0x25] := by
   decide +kernel
+
+/-- Tie to the source as it is now (`PG/Generated/Uuid.lean` is re-translated from
+    `ProguardMapping::uuid` on every run): the function body is exactly
+    `Uuid::new_v5(&NAMESPACE, self.source)` with `NAMESPACE = Uuid::new_v5(&Uuid::NAMESPACE_DNS,
+    b"guardsquare.com")` — no memo, no normalisation of the bytes, nothing but the bytes given to
+    `new` — and those constants are the ones of the model. -/
+theorem C18_source :
+    Generated.uuidShapeOk = true ∧ Generated.uuidNsKind = [68, 78, 83] ∧
+    Generated.uuidNsName.map UInt8.ofNat = litGuardsquare := by
+  decide
 
 end PG
